@@ -1,5 +1,5 @@
 import numpy as np
-from scipy.integrate import cumulative_trapezoid
+from scipy.integrate import cumulative_trapezoid, trapezoid
 import eqsig.fns.peaks_and_crossings
 from eqsig import sdof
 from eqsig.exceptions import deprecation
@@ -393,7 +393,7 @@ def calc_acc_rms(asig, threshold):
     ind01 = np.where(abs_motion > threshold)
     try:
         # rms acceleration in m/s/s
-        a_rms01 = np.sqrt(1 / asig.t_b01 * np.trapz((asig.values[ind01[0][0]:ind01[0][-1]]) ** 2, dx=asig.dt))
+        a_rms01 = np.sqrt(1 / asig.t_b01 * trapezoid((asig.values[ind01[0][0]:ind01[0][-1]]) ** 2, dx=asig.dt))
     except IndexError:
         a_rms01 = 0
     return a_rms01
@@ -585,5 +585,5 @@ def calc_vsi_temporal(asig, xi=0.05, periods=None):
     sds_time = np.maximum.accumulate(resp_u, axis=1)
     w = 2 * np.pi / periods
     psv = w[:, np.newaxis] * sds_time
-    c = np.trapz(abs(psv), axis=0)
-    return 0.01 * np.trapz(abs(psv), axis=0)  # in m
+    c = trapezoid(abs(psv), axis=0)
+    return 0.01 * trapezoid(abs(psv), axis=0)  # in m
